@@ -146,6 +146,19 @@ def normAtt (strict : Bool) (objs : List (Nat × List Nat)) (attached : List Nat
   (if !full.isEmpty && full.length = objs.length then [Att.all]
    else full.map (fun o => Att.allObj o.1)) ++ rest.map Att.pulse
 
+/-- `as_cmdline_load_attach` as a whole: a load that ended up on no pulse at all (it was attached to all pulses
+of a geo object that owns none) keeps an attachment — `all,tag` of the first pulse-less object — because the
+reader insists on at least one attachment per load (`keepUnused`, the repaired rule; the former writer wrote
+nothing for such a load) -/
+def writeAtt (keepUnused : Bool) (objs : List (Nat × List Nat)) (attached : List Nat) : List Att :=
+  if attached.isEmpty then
+    (if keepUnused then
+      match objs.find? (·.2.isEmpty) with
+      | some o => [Att.allObj o.1]
+      | none => []
+    else [])
+  else normAtt true objs attached
+
 /-- pulses an attachment form denotes (`register_load`) -/
 def expandAtt (objs : List (Nat × List Nat)) : Att → List Nat
   | .pulse k => [k]
